@@ -258,6 +258,23 @@ def replicate (env : Env ν) (k d : Nat) (p : Genome ν) (muts : List (Nat × ν
   | .ok c k' d' =>
     if p.rate then randomPass env k' d' c (c.genes.map (·.name)) else .ok c k' d'
 
+/-! ### vocabulary of the source translation (Operon/Gen/GenomeTranslated.lean is generated from genome.py) -/
+
+/-- `d[key] = x` with an explicit key (the translation does not assume that a gene is stored under its own name) -/
+def putGeneAt : List (Gene ν) → Nat → Gene ν → List (Gene ν)
+  | [], _, x => [x]
+  | h :: t, key, x => if h.name = key then x :: t else h :: putGeneAt t key x
+
+/-- a method that left the translatable subset: any agreement theorem about it fails -/
+def untranslatable (_construct : String) : MRes ν := .raised 0
+
+/-- the gate settings a child is constructed with: (allow_mutations, on_mutation, mutation_rate > 0) -/
+structure Gate where
+  allow : Bool
+  cb : Option Nat
+  rate : Bool
+  deriving Repr, DecidableEq
+
 /-! ### the lineage store and its operations -/
 
 structure Store (ν : Type) where
